@@ -273,7 +273,14 @@ def random_topology(rng, n, graph_kind):
         # two to four components (contiguous or interleaved atom numbers), each a tree, a ring or a tree with extra
         # ring-closing bonds; lone atoms allowed - in particular "a ring followed by a lone atom"
         k = rng.randint(2, 4)
-        owner = sorted(rng.randrange(k) for _ in range(n)) if rng.random() < 0.5 else [rng.randrange(k) for _ in range(n)]
+        if n >= 4 and rng.random() < 0.5:
+            # one big piece and one to three leftover atoms (each alone, or together), before or after it
+            lone = rng.randint(1, min(3, n - 3))
+            k = 1 + (lone if rng.random() < 0.5 else 1)
+            rest = [1 + (j % (k - 1)) for j in range(lone)]
+            owner = [0] * (n - lone) + rest if rng.random() < 0.7 else rest + [0] * (n - lone)
+        else:
+            owner = sorted(rng.randrange(k) for _ in range(n)) if rng.random() < 0.5 else [rng.randrange(k) for _ in range(n)]
         for c in range(k):
             mem = [i for i in range(n) if owner[i] == c]
             shape = rng.choice(['tree', 'ring', 'cyclic'])
